@@ -31,7 +31,8 @@ META = {
         ' Also: no word wildcard inside multisec_regex / twprge_regex, cull vocabulary is the accepted connector set, sub_scrubber replaces by position, layout dispatch chains are exhaustive.'
         " Round 7: the marker walk starts at the first marker; every accumulator of rebuild_sec_within reaches the stored description under a guard that looks at it; cleanup_desc word tests; pm_regex does not fire inside any word of an ordinary-words corpus (found and fixed: 'shipment', 'primary')."
         " Round 8: the unused list is not emptied before a return; the chunker's text is flagged from PLSSParser's own list; section patterns starting inside a word ('bisect 14') are a known finding."
-        ' Round 9: every chunk is handed to a ChunkParser; an empty section list (filtered unpacker result) is reported as a vanishing block.'),
+        ' Round 9: every chunk is handed to a ChunkParser; an empty section list (filtered unpacker result) is reported as a vanishing block.'
+        ' Round 10: with `segment`, a text in which the Twp/Rge finder keeps nothing still comes out of segment() as a block (followed for every layout with an empty match list); unused text handed to a flag-making helper is followed.'),
     'families': ['SINK', 'ORDER', 'TBL', 'STRIPSET'],
 }
 
@@ -155,6 +156,42 @@ def _parser_level_unused_is_flagged(ctx):
                 body_txt = ' '.join(norm(x) for x in ast.walk(lp) if isinstance(x, (ast.JoinedStr, ast.Call)))
                 if 'unused_desc<' in body_txt or 'flag_unused' in body_txt:
                     flagged = True
+    if not flagged:
+        # the list handed to a helper that makes the flags from its parameter
+        # (`flag_unused_components(self.unused_components, ...)`)
+        from .. import flow as _flow
+        handed = False
+        for m in ci.methods.values():
+            for c in ast.walk(m.node):
+                if not isinstance(c, ast.Call):
+                    continue
+                pos = [i for i, a in enumerate(c.args) if norm(a) == 'self.unused_components']
+                kws = [k.arg for k in c.keywords if k.arg and norm(k.value) == 'self.unused_components']
+                if not pos and not kws:
+                    continue
+                if isinstance(c.func, ast.Attribute) and norm(c.func.value) == 'self.unused_components':
+                    continue
+                nm = dotted(c.func) or ''
+                node = _flow.RESOLVER(nm, c, m.node) if _flow.RESOLVER and nm else None
+                callee = getattr(node, '_func', None) if node is not None else None
+                if callee is None:
+                    handed = handed or nm.split('.')[-1] not in ('len', 'list', 'tuple', 'bool', 'enumerate', 'sorted')
+                    continue
+                if not any(isinstance(x, (ast.JoinedStr, ast.Constant)) and 'unused_desc' in norm(x) for x in ast.walk(callee.node)):
+                    continue        # a helper that makes no unused_desc flag at all (rebuild_sec_within)
+                handed = True
+                params = [p_ for p_ in callee.params() if p_ not in ('self', 'cls')]
+                names = [params[i] for i in pos if i < len(params)] + [k for k in kws if k in params]
+                for lp in ast.walk(callee.node):
+                    if isinstance(lp, (ast.For, ast.comprehension)) and isinstance(lp.iter, ast.Name) and lp.iter.id in names:
+                        scope = lp if isinstance(lp, ast.For) else parent(lp)
+                        txt_ = ' '.join(norm(x) for x in ast.walk(scope) if isinstance(x, ast.JoinedStr))
+                        if 'unused_desc<' in txt_:
+                            flagged = True
+        if not flagged and handed:
+            ctx.undecided('SINK', "the chunker's leading / trailing text is flagged",
+                          'PLSSParser.unused_components is handed to a helper whose flag-making loop was not recognised')
+            return
     ctx.check(flagged, 'SINK', "the chunker's leading / trailing text is flagged",
               detail_bad=f"`{norm(fed[1])[:60]}` puts the text the chunker cuts off (before the first / after the last Twp/Rge, with "
                          f"`segment`) into PLSSParser.unused_components, but no loop in PLSSParser turns that list into unused_desc "
@@ -187,6 +224,7 @@ def _unused_flow(ctx):
     from .c05 import every_match_registers      # a staged tract with an EMPTY section list builds no Tract: its block vanishes
     ctx.attempt(every_match_registers, rule='SINK')
     ctx.attempt(_every_chunk_is_parsed)
+    ctx.attempt(_segment_without_twprge)
     ctx.attempt(_parser_level_unused_is_flagged)
     safe = ctx.repo.func('ChunkParser.parse_safe')
     t = [norm(s) for s in walk_local(safe.node) if isinstance(s, ast.stmt)]
@@ -653,3 +691,54 @@ def _cleanup(ctx):
     ctx.tri(ok and bool(strips), bool(strips) and not ok, 'SINK', 'cleanup_desc strips only punctuation and whitespace',
             detail_bad=f"strip sets {strips} contain letters/digits: words are eaten from the description",
             key="SINK|cleanup_desc|strip")
+
+
+def _segment_without_twprge(ctx):
+    """With `segment`, a text in which the Twp/Rge finder keeps nothing (no
+    Twp/Rge at all, or none the dictated layout accepts) must still come out
+    of PLSSChunker.segment() as a block: a chunker that produces neither a
+    block nor an unused block makes the whole description vanish - no tract,
+    no flag."""
+    from .c11 import follow_segment
+    from .layouts import layout_classes
+    seg = ctx.repo.func('PLSSChunker.segment')
+    names = [n for n in layout_classes(ctx)['names'] if n != 'COPY_ALL' and n.isupper()]
+    n = 0
+    for lay in sorted(names):
+        verdict = follow_segment(ctx, seg, lay, ())
+        if verdict is None:
+            ctx.undecided('SINK', f"segment(): a {lay} text without a Twp/Rge is kept as one block", 'walk not covered')
+            continue
+        n += 1
+        if verdict.startswith('calls '):
+            # handed to a _segment_* method with an empty match list: its loop over the matches does not run;
+            # anything that keeps the text must stand outside that loop
+            callee = ctx.repo.find_method(seg.cls, verdict[len('calls self.'):-2]) if seg.cls is not None else None
+            keeps = callee is not None and any(
+                isinstance(c, ast.Call) and norm(c.func) in ('self.blocks.append', 'self.unused_blocks.append',
+                                                             'self.blocks.extend', 'self.unused_blocks.extend')
+                and not any(isinstance(p_, (ast.For, ast.While)) for p_ in _ancestors(c, callee.node))
+                for c in ast.walk(callee.node))
+            if callee is None or keeps:
+                ctx.undecided('SINK', f"segment(): a {lay} text without a Twp/Rge is kept as one block",
+                              f"segment() {verdict} with an empty match list; what that method does with it is not followed")
+                continue
+            ctx.violation('SINK', f"segment(): a {lay} text without a Twp/Rge is kept as one block",
+                          f"for layout {lay} and a text in which the Twp/Rge finder keeps nothing, segment() {verdict} with an empty "
+                          f"match list; that method only adds blocks inside its loop over the matches, so neither a block nor an "
+                          f"unused block is produced: with `segment` the whole description vanishes (no tract, no unused_desc flag)",
+                          key=f"SINK|segment|no-twprge|{lay}", where=common.loc(seg, seg.node))
+            continue
+        ctx.check(verdict == 'kept', 'SINK', f"segment(): a {lay} text without a Twp/Rge is kept as one block",
+                  'followed with an empty match list',
+                  f"for layout {lay} and a text in which the Twp/Rge finder keeps nothing, segment() {verdict}: with `segment` "
+                  f"the whole description vanishes (no tract, no unused_desc flag)",
+                  key=f"SINK|segment|no-twprge|{lay}", where=common.loc(seg, seg.node))
+    return n
+
+
+def _ancestors(node, stop):
+    p = parent(node)
+    while p is not None and p is not stop:
+        yield p
+        p = parent(p)
